@@ -380,9 +380,59 @@ pub fn dbg_texts<T: std::fmt::Debug>(x: &T) -> (String, String) {
     (compact, rest)
 }
 
+// ---- `==` evaluated on copies placed at different addresses -------------------------------
+// The verdict of `==` may depend on the two values only, not on where they live: the operands
+// are cloned into one heap block at offsets 0, 4, 8 and 12 modulo 16 (adjacent array elements,
+// a field behind a `u32`, a boxed value next to a stack value all differ like that).
+#[repr(C, align(16))]
+struct P0<T> {
+    v: T,
+}
+#[repr(C, align(16))]
+struct P4<T> {
+    pad: u32,
+    v: T,
+}
+#[repr(C, align(16))]
+struct P8<T> {
+    pad: u64,
+    v: T,
+}
+#[repr(C, align(16))]
+struct P12<T> {
+    pad: [u32; 3],
+    v: T,
+}
+thread_local! {
+    static PLACEMENT: std::cell::RefCell<Option<String>> = const { std::cell::RefCell::new(None) };
+}
+/// the first placement disagreement seen since the last call (and clears it)
+pub fn take_placement_disagreement() -> Option<String> {
+    PLACEMENT.with(|p| p.borrow_mut().take())
+}
+pub fn eq_placed<T: PartialEq + Clone>(a: &T, b: &T) -> bool {
+    let e = a == b;
+    let x = Box::new((P0 { v: a.clone() }, P4 { pad: 0, v: b.clone() }, P8 { pad: 0, v: b.clone() }, P12 { pad: [0; 3], v: a.clone() }));
+    let _ = (x.1.pad, x.2.pad, x.3.pad);
+    let r = [x.0.v == x.1.v, x.0.v == x.2.v, x.3.v == x.1.v, x.1.v == x.0.v, x.3.v == x.2.v];
+    if r.iter().any(|y| *y != e) {
+        let off = |p: *const T| p as usize % 16;
+        PLACEMENT.with(|p| {
+            let mut p = p.borrow_mut();
+            if p.is_none() {
+                *p = Some(format!(
+                    "`a == b` is {} for the operands where they were, but copies of the same two values placed at addresses {} / {} / {} / {} modulo 16 compare as {:?} (pairs 0-1, 0-2, 3-1, 1-0, 3-2; 0 and 3 are copies of a, 1 and 2 of b)",
+                    e, off(&x.0.v), off(&x.1.v), off(&x.2.v), off(&x.3.v), r
+                ));
+            }
+        });
+    }
+    e
+}
+
 macro_rules! m_eq {
     (yes, $a:expr, $b:expr) => {
-        Some($a == $b)
+        Some(eq_placed(&$a, &$b))
     };
     (no, $a:expr, $b:expr) => {{
         let _ = (&$a, &$b);
@@ -877,7 +927,7 @@ impl DynCore for CHc128 {
         }
     }
     fn eq_dyn(&self, other: &dyn DynCore) -> bool {
-        self.0 == other.as_any().downcast_ref::<CHc128>().expect("core kind").0
+        eq_placed(&self.0, &other.as_any().downcast_ref::<CHc128>().expect("core kind").0)
     }
     fn snapshot(&self, _fmt: SnapFmt) -> Option<Vec<u8>> {
         None
@@ -914,7 +964,7 @@ impl DynCore for CIsaac {
         }
     }
     fn eq_dyn(&self, other: &dyn DynCore) -> bool {
-        self.0 == other.as_any().downcast_ref::<CIsaac>().expect("core kind").0
+        eq_placed(&self.0, &other.as_any().downcast_ref::<CIsaac>().expect("core kind").0)
     }
     fn snapshot(&self, fmt: SnapFmt) -> Option<Vec<u8>> {
         m_snap!(yes, &self.0, fmt)
@@ -951,7 +1001,7 @@ impl DynCore for CIsaac64 {
         }
     }
     fn eq_dyn(&self, other: &dyn DynCore) -> bool {
-        self.0 == other.as_any().downcast_ref::<CIsaac64>().expect("core kind").0
+        eq_placed(&self.0, &other.as_any().downcast_ref::<CIsaac64>().expect("core kind").0)
     }
     fn snapshot(&self, fmt: SnapFmt) -> Option<Vec<u8>> {
         m_snap!(yes, &self.0, fmt)
